@@ -374,7 +374,7 @@ def case_random(ctx, i):
         if M.shape != ref.shape:
             ctx.violation('%s:shape' % name, '%r vs %r' % (M.shape, ref.shape), case)
             return False
-        if dist(M, ref) > tol:
+        if not (dist(M, ref) <= tol):
             herm = 'hermitian-part-only' if dist(M + M.conj().T, ref + ref.conj().T) < tol else 'differs'
             ctx.violation('%s:differs-from-recorded-terms:%s' % (name, herm), '|H - H_ref| = %g (|H_ref| = %g)' % (dist(M, ref), scale), case)
             return False
@@ -463,6 +463,28 @@ def case_random(ctx, i):
             H3 = nn.calc_H_MPO_from_bond()
             if not report('calc_H_MPO_from_bond', dense.mpo_to_matrix(H3)):
                 return
+            # exact-diag exporter building from the bonds (NearestNeighborModel has no MPO)
+            He = ED.get_numpy_Hamiltonian(nn, from_mpo=False, undo_sort_charge=False)
+            ctx.count('rep.exactdiag_from_bonds')
+            if not report('ExactDiag.build_full_H_from_bonds', np.asarray(He)):
+                return
+            # the same bonds recovered from an MPOModel
+            nn2 = NearestNeighborModel.from_MPOModel(MPOModel(lat, H))
+            ctx.count('rep.NN_from_MPOModel')
+            if not report('NearestNeighborModel.from_MPOModel', dense.mpo_to_matrix(nn2.calc_H_MPO_from_bond())):
+                return
+            # bond energies of a product state add up to <H>
+            from tenpy.networks.mps import MPS
+            pstate = [int(rng.integers(d_)) for d_ in dims]
+            psi = MPS.from_product_state(sites, pstate, bc='finite', permute=False)  # (indices of the leg basis, as `ref`)
+            k_flat = int(np.ravel_multi_index(pstate, dims))
+            # (bonds without any term are stored as None, which bond_energies does not accept: models with all bonds present)
+            be = np.asarray(nn.bond_energies(psi)) if all(hb is not None for hb in Hb[1:]) else None
+            if be is not None:
+                ctx.count('rep.bond_energies')
+            if be is not None and herm_ref and not (abs(np.sum(be) - ref[k_flat, k_flat]) <= 1e-9 * scale):
+                ctx.violation('NearestNeighborModel.bond_energies:sum-differs-from-expectation-value', 'sum %r, <H> %r' % (np.sum(be), ref[k_flat, k_flat]), case)
+                return
             Hb2 = MPOModel(lat, H).calc_H_bond_from_MPO()
             B2 = np.zeros_like(ref)
             for j, hb in enumerate(Hb2):
@@ -505,7 +527,7 @@ def case_random(ctx, i):
             exp = np.zeros_like(R4)
             ix = np.ix_(*(pm_all + pm_all))
             exp[ix] = R4
-            if dist(Hg, exp.reshape(ref.shape)) > tol:
+            if not (dist(Hg, exp.reshape(ref.shape)) <= tol):
                 ctx.violation('group_sites:operator-changed', '|H_grouped - H_ref| = %g' % dist(Hg, exp.reshape(ref.shape)), case)
                 return
     except _Skip:
